@@ -1220,7 +1220,13 @@ func (ctx *Context) evaluate() {
 			e.top = newTop
 			fstrBlockIndex -= 1
 			if v != nil {
-				stackPush(v)
+				// 这一段的值当场转成文本：后面的 {} 若原地修改了同一个数组/字典(x[0] = …、x.push(…))，
+				// 不能再改变已经算好的这一段
+				part, ok := ctx.stringifyLimited(v, false)
+				if !ok {
+					return
+				}
+				stackPush(NewStrVal(part))
 			} else {
 				stackPush(NewStrVal(""))
 			}
